@@ -117,6 +117,17 @@ CHECKS["C11"] = (
     "DESIGN.md 5.1, 6 (C11)",
 )
 
+CHECKS["C12"] = (
+    "model_checking",
+    "bounded-exhaustive enumeration of enum/flag declarations x underlying types x text styles x all (8-bit) or boundary underlying values x uses (scalar, array, null-terminated, bit-field, struct field) against the C numbering rule and value-preservation oracle",
+    "All declarations of 1-3 members (thorough 4) over 13 value specs (auto, literals, negative, expressions over earlier members, duplicates) x "
+    "8 underlying types x enum/flag x 3 text styles (incl. a line break inside a member) must be numbered like C (also by the legacy parser); "
+    "every one of the 256 underlying values of 8-bit bases and boundary/member/combination values of wider ones is parsed as scalar (bytes and "
+    "stream), in [2], [] arrays, bit-fields and struct fields under both endiannesses and both readers: value preserved, written back "
+    "unchanged, ==/hash laws (integer, same class, aliases, other enum/flag, same name in another cstruct).",
+    "DESIGN.md 6 (C12)",
+)
+
 NOT_APPLICABLE = {}
 
 
